@@ -73,7 +73,7 @@ CHECKS = {
         note="intraprocedural; handle replacement recognised as a store into renders_narrow|wide[idx]",
         ref="DESIGN.md section 3 C06"),
     "C07": dict(
-        technique="who-may-call bans over resolved callees, closure-capture census with Freeze verdicts, monotone-store dataflow on shared Result slots",
+        technique="who-may-call bans over resolved callees, closure-capture census with Freeze verdicts, monotone-store dataflow on shared Result slots; atomic-operation typing of the allocation budget (R-TRACKER)",
         text="Decides structural necessary conditions of schedule independence for all schedules and pool sizes: no decoder crate can "
              "observe pool size, thread identity, clock, environment or hash seed; parallel closures share only reviewed slots; every "
              "store into a shared error slot is monotone towards Err; lazy statics are write-once. Does not decide bit-identity of samples.",
